@@ -58,6 +58,22 @@ Fixpoint negate (r:rule) : rule :=
   | RNested n q p r => RNested (negb n) q p r
   end.
 
+(* fuel measure for [disp] below (Proofs/DnfFuel.v: negation does not increase it, every recursive
+   call of disp strictly decreases it) *)
+Definition sum_with (f : rule -> nat) (l : list rule) : nat := fold_right (fun x acc => f x + acc) 0 l.
+Fixpoint weight (r : rule) : nat :=
+  match r with
+  | RAtom _ _ => 1
+  | RAnd _ l => 1 + sum_with weight l
+  | ROr _ l => 1 + sum_with weight l
+  | RCond _ i t None => 2 + weight i + weight t
+  | RCond _ i t (Some e) => 4 + 2 * weight i + weight t + weight e
+  | RNested _ _ _ r => 1 + weight r
+  end.
+Definition flag (r : rule) : nat :=
+  match r with RAnd true _ | ROr true _ => 1 | _ => 0 end.
+Definition mu (r : rule) : nat := 2 * weight r + flag r.
+
 (* rules as the profile parser produces them *)
 Fixpoint wf (r:rule) : bool :=
   match r with
